@@ -45,6 +45,13 @@ def localCloseBody (code : Nat) (reason : Bytes) : Bytes :=
   let code' := if code < Facts.localCloseMinCode then Facts.localCloseRaisedTo else code
   cutBody (statusBytes code' ++ reason)
 
+/-- `closeViaWrite(body)`: a Close payload handed to a generic write API is split into the status and the reason
+that `WriteClose` is then called with -/
+def viaWriteSplit (body : Bytes) : Nat × Bytes :=
+  match body with
+  | a :: b :: reason => (Frame.be16 a b, reason)
+  | _ => (Facts.closeNormalClosure, [])
+
 /-- `emitError(reading = true, err)`: status sent for an error of the read path.
 `status c` = an `internal.StatusCode`; `coded c` = an `*internal.Error` with that code;
 `other` = any other error (I/O): the code sends 1000. -/
